@@ -159,6 +159,8 @@ def run_case(case: dict[str, Any]) -> dict[str, Any]:
                 my = float(uid[0])
                 if val_kind == "zero":
                     my = 0.0  # a valid sample whose value is zero
+                if val_kind == "inf":
+                    my = float("inf") if uid[0] % 2 else float("-inf")  # a valid sample whose value is infinite
                 if val_kind == "none":
                     s = Sample(ts, None)
                 elif val_kind == "nan":
@@ -171,7 +173,7 @@ def run_case(case: dict[str, Any]) -> dict[str, Any]:
                     return  # the harness closed this channel (scripted fault)
                 await asyncio.sleep(0)
                 await asyncio.sleep(0)
-                if val_kind in ("ok", "zero"):
+                if val_kind in ("ok", "zero", "inf"):
                     rec["arrivals"][i].append({"ts": ts, "value": my, "t_sent": now})
 
         async def resample_forever() -> None:
